@@ -31,7 +31,14 @@
 (*             a keyword-like name), then the same Funcs again or the          *)
 (*             corrected function (exported as fam "session", one outcome per  *)
 (*             run)                                                            *)
-(*  "small"    the union of the eight families above                          *)
+(*  "position" the one call of the program written in every syntactic position  *)
+(*             (Native!Positions) x no / one parameter x five result kinds x   *)
+(*             every error mode: an error aborts the run there (fam "position")*)
+(*  "keep"     2..MaxKeep calls whose []byte / string results are kept in a     *)
+(*             variable, an array element, a field or as an array subscript,    *)
+(*             the Go function returning fresh memory, one reused buffer, or    *)
+(*             wiping what it returned before (fam "keep")                      *)
+(*  "small"    the union of the ten families above                            *)
 (*  "extra"    (thorough tier) every PAIR of parameter kinds, documented or    *)
 (*             not, plain and variadic; every result shape behind an int and   *)
 (*             behind a map parameter; histories of 4 Execute calls            *)
@@ -110,7 +117,14 @@ ExportSession(c) == [fam |-> "session", sig |-> c.sig, args |-> c.args, called |
 Export(c) == [fam |-> "native", sig |-> c.sig, args |-> c.args, called |-> c.called, shadow |-> c.shadow, cf |-> c.cf,
               outcome |-> OutcomeFull(c.sig, c.args, c.called, c.shadow, c.cf)]
 
-ExportAny(c) == IF "session" \in DOMAIN c THEN ExportSession(c) ELSE Export(c)
+\* calls inside whole programs
+MaxKeep == 3
+ExportPos(c)  == [fam |-> "position", sig |-> c.sig, args |-> c.args, pos |-> c.pos, outcome |-> PosOutcome(c.sig, c.args, c.pos)]
+ExportKeep(c) == [fam |-> "keep", rk |-> c.rk, policy |-> c.policy, hold |-> c.hold, args |-> c.args, outcome |-> KeepOutcome(c)]
+
+ExportAny(c) == IF "session" \in DOMAIN c THEN ExportSession(c)
+                ELSE IF "pos" \in DOMAIN c THEN ExportPos(c)
+                ELSE IF "policy" \in DOMAIN c THEN ExportKeep(c) ELSE Export(c)
 
 \* builder state for the "wide" family
 VARIABLES b, emitted
@@ -126,9 +140,11 @@ Init ==
                     [] Family = "strform" -> CasesStrForm [] Family = "dispatch" -> CasesDispatch
                     [] Family = "extreme" -> CasesExtreme [] Family = "shapes" -> CasesShapes
                     [] Family = "session" -> {c \in CasesSession : SessionOK(c)}
+                    [] Family = "position" -> PosCases [] Family = "keep" -> KeepCases(MaxKeep)
                     [] Family = "extra" -> CasesShapes2 \cup {c \in CasesSessionLong : SessionOK(c)}
                     [] Family = "small" -> CasesArgs \cup CasesResults \cup CasesInvalid \cup CasesStrForm \cup CasesDispatch
-                                           \cup CasesExtreme \cup CasesShapes \cup {c \in CasesSession : SessionOK(c)})
+                                           \cup CasesExtreme \cup CasesShapes \cup {c \in CasesSession : SessionOK(c)}
+                                           \cup PosCases \cup KeepCases(MaxKeep))
 
 Grow ==
   /\ Family = "wide" /\ ~emitted
